@@ -37,6 +37,10 @@ func Event.OnTrigger$1
   ensures subscribed <==> old((*e).callbacks != nil)
   ensures subscribed ==> has((*e).callbacks.m, (*e).callbackIDs) && (*e).callbacks.m[(*e).callbackIDs] == *callback
   ensures (*e).callbacks == old((*e).callbacks)
+  -- the identifier is drawn (a plain increment of callbackIDs) in the WRITE section of the event mutex: two registrations
+  -- that overlap would draw the same identifier, and one callback would replace the other in the map
+  ghost before call uniqueID.Next: assert held((*e).mutex)
+  ghost before call ShrinkingMap.Set: assert held((*e).mutex)
 
 func Event.OnTrigger
   opt sequential
@@ -55,4 +59,22 @@ func Event.Trigger$1
   ensures *wasTriggered <==> old((*e).callbacks != nil)
   ensures !*wasTriggered ==> len(r0) == 0
 
+-- Event1 (same structure; checked for the write section of the registration and the triggering only)
+type Event1
+  monitor mutex level 5 guards callbacks, callbackIDs, value
+func Event1.OnTrigger$1
+  instantiate T: int
+  opt sequential
+  opt only-ghost-asserts
+  requires e != nil && *e != nil && unlocked((*e).mutex)
+  modifies everything
+  ghost before call uniqueID.Next: assert held((*e).mutex)
+  ghost before call ShrinkingMap.Set: assert held((*e).mutex)
+func Event1.Trigger$1
+  instantiate T: int
+  opt sequential
+  opt only-ghost-asserts
+  requires e != nil && *e != nil && unlocked((*e).mutex) && arg != nil
+  modifies everything
+  ghost before call ShrinkingMap.Values: assert held((*e).mutex) && (*e).callbacks == nil && (*e).value != nil
 @*/
